@@ -596,7 +596,7 @@ Proof.
 Qed.
 
 Lemma body_ok_no_cast i :
-  cast_error (i_mode i) (i_schema i) = None ->
+  cast_error (i_mode i) (i_declared i) (i_schema i) = None ->
   body_ok i (fst (run_loop i)) (snd (run_loop i)) = true.
 Proof.
   intro Ec. unfold run_loop. rewrite Ec.
@@ -629,7 +629,7 @@ Proof.
 Qed.
 
 Lemma body_ok_cast i e :
-  cast_error (i_mode i) (i_schema i) = Some e ->
+  cast_error (i_mode i) (i_declared i) (i_schema i) = Some e ->
   body_ok i (fst (run_loop i)) (snd (run_loop i)) = true.
 Proof.
   intro Ec. unfold run_loop, body_ok. rewrite Ec.
@@ -645,7 +645,7 @@ Qed.
 
 Lemma body_ok_model i : body_ok i (fst (run_loop i)) (snd (run_loop i)) = true.
 Proof.
-  destruct (cast_error (i_mode i) (i_schema i)) as [e|] eqn:Ec; [now apply (body_ok_cast i e) | now apply body_ok_no_cast].
+  destruct (cast_error (i_mode i) (i_declared i) (i_schema i)) as [e|] eqn:Ec; [now apply (body_ok_cast i e) | now apply body_ok_no_cast].
 Qed.
 
 Lemma strip_prefix_app p l : strip_prefix p (p ++ l) = Some l.
@@ -654,9 +654,9 @@ Proof.
   now rewrite skipn_app, Nat.sub_diag, skipn_all.
 Qed.
 
-Theorem model_meets_spec i : spec_ok i (model i) = true.
+Theorem model_call_meets_spec i : spec_call_ok i (model_call i) = true.
 Proof.
-  unfold spec_ok, model. cbn [o_broken o_trace o_streams negb andb]. unfold call_trace. cbn [app].
+  unfold spec_call_ok, model_call. cbn [o_broken o_trace o_streams negb andb]. unfold call_trace. cbn [app].
   rewrite Z.eqb_refl. cbn [andb]. rewrite last_opt_snoc, removelast_last. unfold sentinel_x at 1 2. rewrite Z.eqb_refl. cbn [andb].
   unfold call_streams. destruct (i_init_fail i) as [f|] eqn:Ef.
   - cbn [app]. rewrite stream_eqb_refl. cbn [st_schema st_frames andb]. rewrite !beqb_refl. reflexivity.
@@ -665,4 +665,34 @@ Proof.
       apply body_ok_model.
     + rewrite stream_eqb_refl. cbn [st_schema st_frames andb]. rewrite beqb_refl, strip_prefix_app. cbn [andb].
       apply body_ok_model.
+Qed.
+
+(* ---- histories: every call of a history is judged on its own -------------- *)
+Theorem model_meets_spec h : spec_ok h (model h) = true.
+Proof.
+  induction h as [|i h IH]; [reflexivity|]. cbn [model map spec_ok]. fold (model h).
+  now rewrite model_call_meets_spec, IH.
+Qed.
+
+Theorem history_app h1 h2 : model (h1 ++ h2) = model h1 ++ model h2.
+Proof. apply map_app. Qed.
+
+Theorem history_nth h n i : nth_error h n = Some i -> nth_error (model h) n = Some (model_call i).
+Proof. intro H. unfold model. now apply map_nth_error. Qed.
+
+Theorem spec_ok_each h os :
+  spec_ok h os = true <-> length h = length os /\ forall n i o, nth_error h n = Some i -> nth_error os n = Some o -> spec_call_ok i o = true.
+Proof.
+  revert os; induction h as [|i h IH]; intros [|o os]; cbn [spec_ok length]; split; try discriminate.
+  - intros _. split; [reflexivity|]. intros [|n] i o H; discriminate.
+  - reflexivity.
+  - intros [H _]. discriminate.
+  - intros [H _]. discriminate.
+  - intro H. apply andb_true_iff in H as [H1 H2]. apply IH in H2 as [L F]. split; [now rewrite L|].
+    intros [|n] i' o' Hi Ho; cbn [nth_error] in Hi, Ho.
+    + injection Hi as <-. injection Ho as <-. exact H1.
+    + now apply (F n).
+  - intros [L F]. apply andb_true_iff. split.
+    + apply (F 0%nat); reflexivity.
+    + apply IH. split; [now injection L|]. intros n i' o' Hi Ho. now apply (F (S n)).
 Qed.
